@@ -174,6 +174,8 @@ func checkC15(c *Ctx, r *Report) {
 	c15Esc(c, r)
 	c15Kinds(c, r)
 	c15Gen(c, r)
+	c15Order(c, r)
+	c15AllDefs(c, r)
 }
 
 func c15Esc(c *Ctx, r *Report) {
@@ -554,6 +556,7 @@ func checkC16(c *Ctx, r *Report) {
 	c16Defaults(c, r)
 	c16BindName(c, r)
 	c16ExtPure(c, r)
+	importRules(c, r, "C13", "C16.VALALL", "after every load the whole type table and the whole directive table are validated, unfiltered (C13.WALK): validating only what a load defines or extends accepts a split arrangement (`extend interface` arriving after its implementers) that the single document refuses", "C13.WALK")
 }
 
 // c16BindName: while scanning, a type name is bound either to a definition the root already holds or to a
